@@ -10,7 +10,7 @@ ASSUMPTIONS = ['READ_LINE events inside attempts are all the references evaluate
 
 
 def plan(tier, seed):
-    sp = progwork.shards(tier, 2500, 50000)
+    sp = progwork.shards(tier, 2500, 150000)
     from hv import realwork
     return sp + realwork.shards('C04', tier)
 
